@@ -669,34 +669,49 @@ def oracle(script, impl):
                         "viewOnly is %d, expected %d" % (cid, match, c["sid"], s.get("fvo"), c["vo"], want_vo), stats)
         else:
             stats["refused_pw"] += 1
-        # completeness: a client that does everything right and is not disturbed must be admitted
-        # (not demanded when the script broke the crypto back-end: then nobody can be admitted)
+        # completeness ("if"): judged by what the CLIENT did (RFB 3.3 handshake for minor < 7, security-type
+        # handshake from 3.7 on), not by the form of the server's answer.  Not demanded when the script broke
+        # the crypto back-end, nor for disturbed connections (forced reads, writes without processing, close).
         sent = c["sent"]
-        if (not cryptofail and not c["disturbed"] and match is not None and w is not None and
-                ((w["form"] == "3.3" and sent[:12] == b"RFB 003.003\n" and len(sent) == 29) or
-                 (w["form"] == "3.7" and sent[:12] in (b"RFB 003.007\n", b"RFB 003.008\n") and sent[12:13] == b"\2"
-                  and len(sent) == 30) or
-                 # TightVNC: type 16, auth type 2 and the response must be there when the server reads them
-                 (w["form"] == "tight" and sent[:12] in (b"RFB 003.007\n", b"RFB 003.008\n") and
-                  sent[12:17] == b"\x10\0\0\0\2" and len(sent) == 34 and
-                  not any(12 < b < 33 for b in c["bounds"])))):
-            stats["complete_checked"] += 1
-            if not (w["result"] == 0 and w["si"] and c["states"][-1] == "normal" and c["open"]):
-                return ("connection %d sent the correct response for password #%d of screen %d but was not "
-                        "admitted (result %s, ServerInit %s, state %s)" % (cid, match, c["sid"], w["result"],
-                                                                           w["si"], c["states"][-1]), stats)
-    # an honest client whose type choice is refused because of other connections never gets a challenge;
-    # that half of the property (the 'if') is checked here from the script alone
+        mv = re.match(rb"RFB 003\.(\d\d\d)\n", sent[:12])
+        minor = int(mv.group(1)) if mv else None
+        if not cryptofail and not c["disturbed"] and s["pws"] and minor is not None:
+            old = minor < 7
+            # (1) every viewer that speaks 3.3..3.6, and every 3.7+ viewer that chooses VNC authentication,
+            #     is sent a challenge
+            if old or sent[12:13] == b"\2":
+                if w is None or w["challenge"] is None:
+                    return ("connection %d (RFB 3.%d) %s on password screen %d and was not sent a challenge "
+                            "(state %s, server wrote %s)" % (
+                                cid, minor, "connected" if old else "chose VNC authentication", c["sid"],
+                                c["states"][-1], c["out"].hex()), stats)
+            # (2) ... and is admitted when its response is the DES proof (its whole stream being exactly
+            #     version [type 2] response ClientInit)
+            off = 12 if old else 13
+            if (w is not None and w["challenge"] is not None and (old or sent[12:13] == b"\2") and
+                    len(sent) == off + 17):
+                r2 = sent[off:off + 16]
+                m2 = [j for j, pw in enumerate(s["pws"]) if vnc_response(pw, w["challenge"]) == r2]
+                if m2:
+                    stats["complete_checked"] += 1
+                    if not (w["result"] == 0 and w["si"] and c["states"][-1] == "normal" and c["open"]):
+                        return ("connection %d (RFB 3.%d) sent the correct response for password #%d of screen %d "
+                                "but was not admitted (result %s, ServerInit %s, state %s)" % (
+                                    cid, minor, m2[0], c["sid"], w["result"], w["si"], c["states"][-1]), stats)
+            # TightVNC: type 16, auth type 2 and the response must be there when the server reads them
+            if (minor >= 7 and w is not None and w["form"] == "tight" and match is not None and
+                    sent[12:17] == b"\x10\0\0\0\2" and len(sent) == 34 and
+                    not any(12 < b < 33 for b in c["bounds"])):
+                stats["complete_checked"] += 1
+                if not (w["result"] == 0 and w["si"] and c["states"][-1] == "normal" and c["open"]):
+                    return ("connection %d sent the correct response for password #%d of screen %d through the "
+                            "TightVNC security type but was not admitted (result %s, ServerInit %s, state %s)" % (
+                                cid, match, c["sid"], w["result"], w["si"], c["states"][-1]), stats)
     for cid, c in sorted(conns.items()):
         s = scr.get(c["sid"])
         if s is None or s["kind"] == "none" or c["rev"] or c["disturbed"] or not s["pws"]:
             continue
         sent = c["sent"]
-        if sent[:12] in (b"RFB 003.007\n", b"RFB 003.008\n") and sent[12:13] == b"\2" and len(sent) >= 13:
-            w = split_server_stream(c["out"], s["si"])
-            if w is not None and w["form"] == "3.7" and w["challenge"] is None:
-                return ("connection %d chose VNC authentication on password screen %d, as offered, and got no "
-                        "challenge (state %s)" % (cid, c["sid"], c["states"][-1]), stats)
         # the same for a registered type: a client that was offered TightVNC (16) and chooses it with VNC
         # authentication inside, all in one write, must get its challenge -- unless the application itself
         # unregistered the extension in between (then the script contains `tight 0`)
